@@ -20,7 +20,8 @@ RULE = ("error arrays (1-200 drawn values, bulk to 1e6 from a Philox key; magnit
         "injected into APE/RPE objects: statistics vs math.fsum definitions, order relations, rmse^2 = mean^2 + std^2; every "
         "ordered pair of the 10 units; ape()/rpe() evaluations on generated timestamped trajectories (options align, "
         "correct_scale, change_unit, delta/unit/pairing): companion arrays, stored trajectories, title/label. Non-trivial = "
-        ">= 2 distinct values (RPE: non-unit frame delta or filtered ratio); distinct by SHA-1")
+        ">= 2 distinct values (RPE: non-unit frame delta or filtered ratio); distinct by SHA-1"
+        ' Round-3 additions: derived quantities read before ape()/rpe(); evo_ape result saved together with plots (cli_plot).')
 ASSUMPTIONS = ["statistics compared with relative tolerance 1e-9 (order relations with the same slack: on constant arrays "
                "mean <= rmse <= max fails strictly by one ulp on correct code)",
                "'distances from start' are read as accumulated path length of the trajectories stored in the result"]
